@@ -335,6 +335,10 @@ func runC08(c *Ctx) {
 
 // c08Unit: the bookkeeping type against a plain map for all call sequences of length <= 5.
 func c08Unit(c *Ctx) {
+	if !mqtt.VerifHasSubs {
+		c.Note("C08: the white-box wrapper around the established-subscription list does not compile against this tree; the unit part is skipped, the client-level scenarios still judge the broker's table")
+		return
+	}
 	alpha := c08Alphabet()[:9]
 	maxL := 4
 	if c.Thorough() {
